@@ -148,6 +148,18 @@ def translate():
     if [tuple(x) for x in order] != want:
         fails.append("h2.rs: check_flood no longer tests the ten counters in the modelled order: %s" % (order,))
     fails += flood_sites(hs)
+    # census: in handle_header_state every refusal of a new stream raises highest_peer_stream_id first
+    try:
+        body = _fn_body(hs, "fn handle_header_state<L>")
+        sites = [m.start() for m in re.finditer(r"return self\.refuse_stream_and_discard\(", body)]
+        if len(sites) < 3:
+            fails.append("h2.rs: handle_header_state has fewer than 3 refuse_stream_and_discard sites (model: draining, stream limit, pool exhausted)")
+        for k in sites:
+            before = body[max(0, k - 500):k]
+            if not re.search(r"if stream_id > self\.highest_peer_stream_id \{\s*self\.highest_peer_stream_id = stream_id;\s*\}\s*$", before):
+                fails.append("h2.rs: handle_header_state refuses a stream without raising highest_peer_stream_id first (late frames on it would be treated as frames on an idle stream)")
+    except ValueError as ex:
+        fails.append("h2.rs: handle_header_state unreadable: %r" % (ex,))
 
     lines = ["(* GENERATED by props/c15.py:translate from /repo/lib/src/protocol/mux — do not edit. *)",
              "From Coq Require Import NArith List.", "Import ListNotations.", "Open Scope N_scope.", ""]
